@@ -74,6 +74,9 @@ def mutate(r, t):
         p["closing"] = ("=", (0, r.choice([0, 2])), c2); tag = "zero-total"
     elif k == 11:
         p["amount"] = (p["amount"][0], p["amount"][1] + r.randint(1, 3)); tag = "rescaled"
+    if p.get("closing") and p["comm"] and not p.get("opening") and r.random() < 0.4:
+        # the same shape together with an opening position
+        p["opening"] = ((r.randint(1, 500), r.randint(0, 2)), r.choice(J.COMMS[2:])); tag += "+opening"
     return t, tag
 
 
@@ -100,6 +103,23 @@ def gen_cases(run, n):
         for k, t in enumerate(ts):
             t["desc"] = "t%d" % k
         cases.append({"txns": ts, "tags": tags, "src": "gen"})
+    # sums that leave the 96-bit range and come back (or not)
+    MAX = 2 ** 96 - 1
+    for i in range(max(4, n // 25)):
+        sc = r.choice([0, 0, 3])
+        big = (MAX - r.randint(0, 5), sc)
+        shape = r.randint(0, 3)
+        P = lambda acc, amt: {"acc": acc, "amount": amt, "comm": "", "closing": None, "opening": None, "comment": None}
+        if shape == 0:
+            posts, last = [P("e", big), P("e2", big), P("a", (-big[0], sc))], None
+        elif shape == 1:
+            posts, last = [P("e", big), P("e2", big)], {"acc": "a", "comment": None}
+        elif shape == 2:
+            posts, last = [P("e", big), P("a", (-big[0], sc))], None                     # balanced, representable
+        else:
+            posts, last = [P("e", big), P("e2", (1, sc)), P("a", (-big[0], sc)), P("b", (-1, sc))], None
+        t = {"ts": "2024-01-01", "code": None, "desc": "t0", "uuid": None, "loc": None, "tags": None, "comments": [], "posts": posts, "last": last}
+        cases.append({"txns": [t], "tags": ["big-sum-shape-%d" % shape], "src": "gen"})
     return cases
 
 
@@ -152,6 +172,10 @@ def main(run):
             distinct.add(json.dumps(c["impl"], sort_keys=True))
         if len(run.cov["samples"]) < 3:
             run.cov["samples"].append({"journal": text, "tags": c["tags"], "implementation": c["impl"], "bits": bits})
+        if bits & 8:
+            run.violation("accepted transaction whose postings do not sum to zero (exact sum, independent of the number type)",
+                          {"journal": text, "injected": c["tags"], "implementation_output": c["impl"]})
+            continue
         if not (bits & 4):
             continue
         n_dom += 1
